@@ -448,6 +448,17 @@ Fixpoint norm_space_aux (s : bytes) (pending started : bool) : bytes :=
   end.
 Definition normalize_space (s : bytes) : bytes := norm_space_aux s false false.
 
+(* xpath_normalize_space(): the string is rewritten only when a first scan finds leading, trailing or repeated
+   white space; a string whose only white space are single characters between words is returned as it is - also when
+   such a character is a tab, line feed or carriage return *)
+Fixpoint has_ws_run (s : bytes) (prev_ws : bool) : bool :=
+  match s with
+  | [] => prev_ws
+  | b :: s' => if is_xmlws b then (if prev_ws then true else has_ws_run s' true) else has_ws_run s' false
+  end.
+Definition impl_normalize_space (s : bytes) : bytes :=
+  if match s with b :: _ => is_xmlws b | [] => false end || has_ws_run s false then normalize_space s else s.
+
 (* translate(): characters of [from] replaced by the character at the same position of [to], removed when there
    is none; the first occurrence in [from] counts *)
 Fixpoint tr_lookup (c : bytes) (from to : list bytes) : option (option bytes) :=
